@@ -79,8 +79,13 @@ func checkC15(c *Check) {
 	var deferI ssa.Instruction
 	allInstrs(H, func(in ssa.Instruction) {
 		if d, ok := in.(*ssa.Defer); ok {
+			var f *ssa.Function
 			if mc, ok := strip(d.Call.Value).(*ssa.MakeClosure); ok {
-				f := mc.Fn.(*ssa.Function)
+				f = mc.Fn.(*ssa.Function)
+			} else if sc := d.Call.StaticCallee(); sc != nil && p.inModule(sc) {
+				f = sc
+			}
+			if f != nil {
 				hasRecover := false
 				allInstrs(f, func(x ssa.Instruction) {
 					if ci, ok := x.(ssa.CallInstruction); ok && callName(ci.Common()) == "builtin.recover" {
